@@ -317,6 +317,19 @@ ENTRIES = {
     "buffer-next-pops": dict(
         body="<ports::sink::event_buffer::EventBuffer as std::iter::Iterator>::next", effect=calls(r"VecDeque::pop_front$"),
         what="reading an EventBuffer always pops the shared queue"),
+    # ---- model task (C16, C05, C03)
+    "model-task-inits": dict(
+        body="simulation::add_model::{closure#0}",
+        effect=lambda b: [s for s in b.calls(r"^std::future::Future::poll$") if "InitializedModel" in (s.node.get("argtys") or [""])[0]],
+        what="the model task completes only after polling the model's init future"),
+    "model-task-receives": dict(
+        body="simulation::add_model::{closure#0}",
+        effect=lambda b: [s for s in b.calls(r"^std::future::Future::poll$") if (s.node.get("resolved_n") or "") == "channel::Receiver::recv::{closure#0}"],
+        excuse=call_is(r"executor::Signal::is_set$", True),
+        what="after init the model task keeps receiving: it completes only after a recv was polled (or the abort signal is set)"),
+    "model-task-ends-only-on-error-or-abort": dict(
+        body="simulation::add_model::{closure#0}", only_via=any_of(call_is(r"executor::Signal::is_set$", True), call_is(r"Result::is_ok$", False)),
+        what="the model task returns only when the abort signal is set or recv reported that the mailbox is closed"),
 }
 
 
